@@ -381,6 +381,13 @@ def run(shard, rec, rng):
         rec.observe("big_value_cases")
         check_parts(W, rec, parts, rand_boundary(rng), paths=("encode_multipart", "builder_multipart"))
         check_urlencoded(W, rec, [("big", big[:40000]), ("k", "v")])
+    # ---- an upload larger than Request.max_form_memory_size (500 kB, a limit on text fields only) after a text field
+    if shard["index"] % 4 == 0:
+        blob = rng.randbytes(500_000 + rng.randrange(1000, 40_000))
+        parts = [("field", "note", None, None, "n" * rng.randrange(1, 3000)), ("file", "up", "large.bin", "application/octet-stream", blob),
+                 ("file", "up2", "second.bin", "application/octet-stream", blob[: rng.randrange(1, 50_000)])]
+        rec.observe("upload_over_form_memory_limit_cases")
+        check_parts(W, rec, parts, rand_boundary(rng), paths=("builder_multipart",))
     # ---- a part's header block lying across the parser's 64 KiB read boundary, followed by a part with a shorter header block
     for i in range(cfg.get("big_values", 2)):
         boundary = "STRADDLE" + rand_boundary(rng)[:5]
